@@ -712,6 +712,6 @@ MANIFEST = dict(
         "len agrees / ids stay attached'; bucket purity over ties and quantile boundaries are not decided."),
     level_note="Trusted: python ast; torch pad_sequence / DataLoader. F3, F4 (seed chain, prefix default) and F17 (bare-"
                "tensor items bucketed by their first row) were found by these rules and repaired.",
-    technique="static analysis: argument binding, reaching definitions (def-use versions), path typestate, producer/consumer shape protocol, integer interpretation of the per-bucket length contribution",
+    technique="static analysis: argument binding, reaching definitions (def-use versions), path typestate, producer/consumer shape protocol, integer interpretation of the per-bucket length contribution; sampler length table (constructor, rank share and __len__ interpreted over the syntax tree)",
     design_ref="DESIGN.md section 4 C14",
 )
